@@ -101,7 +101,6 @@ fn any_numeric<const CAP: usize, S: Src>(s: &mut S, min_len: usize, with_tail: b
 harness! {
     /// kind=bounded tier=quick bound="u8: every valid UTF-8 string<=4 bytes (all 256 values with leading zeros, '-0', '+', letters, spaces, non-ASCII digits)"
     #[kani::unwind(8)]
-    #[kani::stub(konst_kernel::string::non_char_boundary_panic, crate::hlib::stub_non_char_boundary_panic)]
     fn c12_whole_u8(s) {
         let bs = BStr::<4>::any(s);
         let h = bs.as_str();
@@ -118,7 +117,6 @@ harness! {
 harness! {
     /// kind=bounded tier=quick bound="i8: every valid UTF-8 string<=4 bytes (all 256 values, '-0', '-128', '-129', '+', '--1', letters, non-ASCII)"
     #[kani::unwind(8)]
-    #[kani::stub(konst_kernel::string::non_char_boundary_panic, crate::hlib::stub_non_char_boundary_panic)]
     fn c12_whole_i8(s) {
         let bs = BStr::<4>::any(s);
         let h = bs.as_str();
@@ -135,7 +133,6 @@ harness! {
 harness! {
     /// kind=bounded tier=quick bound="u8/i8 prefix parsing: every valid UTF-8 string<=5 bytes (number followed by an arbitrary suffix)"
     #[kani::unwind(9)]
-    #[kani::stub(konst_kernel::string::non_char_boundary_panic, crate::hlib::stub_non_char_boundary_panic)]
     fn c12_prefix_8(s) {
         let bs = BStr::<5>::any(s);
         let h = bs.as_str();
@@ -153,9 +150,8 @@ harness! {
 // 16-bit types
 
 harness! {
-    /// kind=bounded tier=thorough bound="u16: every valid UTF-8 string<=6 bytes (all 65536 values, one extra digit / leading zero, '+', letters, non-ASCII)"
+    /// kind=bounded tier=quick bound="u16: every valid UTF-8 string<=6 bytes (all 65536 values, one extra digit / leading zero, '+', letters, non-ASCII)"
     #[kani::unwind(10)]
-    #[kani::stub(konst_kernel::string::non_char_boundary_panic, crate::hlib::stub_non_char_boundary_panic)]
     fn c12_whole_u16(s) {
         let bs = BStr::<6>::any(s);
         let h = bs.as_str();
@@ -168,9 +164,8 @@ harness! {
 }
 
 harness! {
-    /// kind=bounded tier=thorough bound="i16: every valid UTF-8 string<=6 bytes (all 65536 values, '-32768', '-32769', '-0', '+', letters, non-ASCII)"
+    /// kind=bounded tier=quick bound="i16: every valid UTF-8 string<=6 bytes (all 65536 values, '-32768', '-32769', '-0', '+', letters, non-ASCII)"
     #[kani::unwind(10)]
-    #[kani::stub(konst_kernel::string::non_char_boundary_panic, crate::hlib::stub_non_char_boundary_panic)]
     fn c12_whole_i16(s) {
         let bs = BStr::<6>::any(s);
         let h = bs.as_str();
@@ -183,9 +178,8 @@ harness! {
 }
 
 harness! {
-    /// kind=bounded tier=thorough bound="u16 prefix parsing: [-+]?digits of <=m bytes continued by arbitrary ASCII, total<=7 bytes, m symbolic"
+    /// kind=bounded tier=quick bound="u16 prefix parsing: [-+]?digits of <=m bytes continued by arbitrary ASCII, total<=7 bytes, m symbolic"
     #[kani::unwind(11)]
-    #[kani::stub(konst_kernel::string::non_char_boundary_panic, crate::hlib::stub_non_char_boundary_panic)]
     fn c12_prefix_u16(s) {
         let (buf, len) = any_numeric::<7, _>(s, 0, true);
         let h = ascii_str(&buf[..len]);
@@ -197,9 +191,8 @@ harness! {
 }
 
 harness! {
-    /// kind=bounded tier=thorough bound="i16 prefix parsing: [-+]?digits of <=m bytes continued by arbitrary ASCII, total<=7 bytes, m symbolic"
+    /// kind=bounded tier=quick bound="i16 prefix parsing: [-+]?digits of <=m bytes continued by arbitrary ASCII, total<=7 bytes, m symbolic"
     #[kani::unwind(11)]
-    #[kani::stub(konst_kernel::string::non_char_boundary_panic, crate::hlib::stub_non_char_boundary_panic)]
     fn c12_prefix_i16(s) {
         let (buf, len) = any_numeric::<7, _>(s, 0, true);
         let h = ascii_str(&buf[..len]);
@@ -329,7 +322,6 @@ fn near_prefix<T: KInt, const CAP: usize, S: Src>(s: &mut S, m: &[u8], d: usize)
 harness! {
     /// kind=bounded tier=quick bound="u32: sign in {none,'-','+'}, optional extra leading '0' or '1', the first 7 digits of u32::MAX, 3 symbolic digits"
     #[kani::unwind(16)]
-    #[kani::stub(konst_kernel::string::non_char_boundary_panic, crate::hlib::stub_non_char_boundary_panic)]
     fn c12_near_u32(s) {
         let (len, r, buf) = near::<u32, 14, _>(s, b"4294967295", 3);
         cov!(s, r == Some(u32::MAX) && len == 10, "C12.cover.u32_near_max");
@@ -343,9 +335,8 @@ harness! {
 }
 
 harness! {
-    /// kind=bounded tier=thorough bound="u32: sign in {none,'-','+'} followed by exactly 10 symbolic digits (u32::MAX has 10 digits)"
+    /// kind=bounded tier=quick bound="u32: sign in {none,'-','+'} followed by exactly 10 symbolic digits (u32::MAX has 10 digits)"
     #[kani::unwind(14)]
-    #[kani::stub(konst_kernel::string::non_char_boundary_panic, crate::hlib::stub_non_char_boundary_panic)]
     fn c12_wide_u32(s) {
         let (len, r, buf) = wide::<u32, 13, _>(s, 10);
         cov!(s, r == Some(u32::MAX), "C12.cover.u32_max");
@@ -357,7 +348,6 @@ harness! {
 harness! {
     /// kind=bounded tier=quick bound="u32: sign in {none,'-','+'} followed by exactly 11 symbolic digits (one more than u32::MAX has)"
     #[kani::unwind(15)]
-    #[kani::stub(konst_kernel::string::non_char_boundary_panic, crate::hlib::stub_non_char_boundary_panic)]
     fn c12_wide_u32_extra(s) {
         let (len, r, buf) = wide::<u32, 13, _>(s, 11);
         cov!(s, r == Some(u32::MAX), "C12.cover.u32_max_leading_zero");
@@ -366,9 +356,8 @@ harness! {
 }
 
 harness! {
-    /// kind=bounded tier=thorough bound="i32: sign in {none,'-','+'}, optional extra leading '0' or '1', the first 7 digits of i32::MAX, 3 symbolic digits"
+    /// kind=bounded tier=quick bound="i32: sign in {none,'-','+'}, optional extra leading '0' or '1', the first 7 digits of i32::MAX, 3 symbolic digits"
     #[kani::unwind(16)]
-    #[kani::stub(konst_kernel::string::non_char_boundary_panic, crate::hlib::stub_non_char_boundary_panic)]
     fn c12_near_i32(s) {
         let (len, r, buf) = near::<i32, 14, _>(s, b"2147483647", 3);
         cov!(s, r == Some(i32::MAX) && len == 10, "C12.cover.i32_near_max");
@@ -387,7 +376,6 @@ harness! {
 harness! {
     /// kind=bounded tier=thorough bound="i32: sign in {none,'-','+'} followed by exactly 10 symbolic digits (i32::MAX has 10 digits)"
     #[kani::unwind(14)]
-    #[kani::stub(konst_kernel::string::non_char_boundary_panic, crate::hlib::stub_non_char_boundary_panic)]
     fn c12_wide_i32(s) {
         let (len, r, buf) = wide::<i32, 13, _>(s, 10);
         cov!(s, r == Some(i32::MAX), "C12.cover.i32_max");
@@ -401,7 +389,6 @@ harness! {
 harness! {
     /// kind=bounded tier=thorough bound="i32: sign in {none,'-','+'} followed by exactly 11 symbolic digits (one more than i32::MAX has)"
     #[kani::unwind(15)]
-    #[kani::stub(konst_kernel::string::non_char_boundary_panic, crate::hlib::stub_non_char_boundary_panic)]
     fn c12_wide_i32_extra(s) {
         let (len, r, buf) = wide::<i32, 13, _>(s, 11);
         cov!(s, r == Some(i32::MAX), "C12.cover.i32_max_leading_zero");
@@ -411,9 +398,8 @@ harness! {
 }
 
 harness! {
-    /// kind=bounded tier=thorough bound="u64: sign in {none,'-','+'}, optional extra leading '0' or '1', the first 17 digits of u64::MAX, 3 symbolic digits"
+    /// kind=bounded tier=quick bound="u64: sign in {none,'-','+'}, optional extra leading '0' or '1', the first 17 digits of u64::MAX, 3 symbolic digits"
     #[kani::unwind(26)]
-    #[kani::stub(konst_kernel::string::non_char_boundary_panic, crate::hlib::stub_non_char_boundary_panic)]
     fn c12_near_u64(s) {
         let (len, r, buf) = near::<u64, 24, _>(s, b"18446744073709551615", 3);
         cov!(s, r == Some(u64::MAX) && len == 20, "C12.cover.u64_near_max");
@@ -427,9 +413,8 @@ harness! {
 }
 
 harness! {
-    /// kind=bounded tier=thorough bound="u64: sign in {none,'-','+'} followed by exactly 20 symbolic digits (u64::MAX has 20 digits)"
+    /// kind=bounded tier=quick bound="u64: sign in {none,'-','+'} followed by exactly 20 symbolic digits (u64::MAX has 20 digits)"
     #[kani::unwind(24)]
-    #[kani::stub(konst_kernel::string::non_char_boundary_panic, crate::hlib::stub_non_char_boundary_panic)]
     fn c12_wide_u64(s) {
         let (len, r, buf) = wide::<u64, 23, _>(s, 20);
         cov!(s, r == Some(u64::MAX), "C12.cover.u64_max");
@@ -439,9 +424,8 @@ harness! {
 }
 
 harness! {
-    /// kind=bounded tier=thorough bound="u64: sign in {none,'-','+'} followed by exactly 21 symbolic digits (one more than u64::MAX has)"
+    /// kind=bounded tier=quick bound="u64: sign in {none,'-','+'} followed by exactly 21 symbolic digits (one more than u64::MAX has)"
     #[kani::unwind(25)]
-    #[kani::stub(konst_kernel::string::non_char_boundary_panic, crate::hlib::stub_non_char_boundary_panic)]
     fn c12_wide_u64_extra(s) {
         let (len, r, buf) = wide::<u64, 23, _>(s, 21);
         cov!(s, r == Some(u64::MAX), "C12.cover.u64_max_leading_zero");
@@ -452,7 +436,6 @@ harness! {
 harness! {
     /// kind=bounded tier=quick bound="i64: sign in {none,'-','+'}, optional extra leading '0' or '1', the first 16 digits of i64::MAX, 3 symbolic digits"
     #[kani::unwind(25)]
-    #[kani::stub(konst_kernel::string::non_char_boundary_panic, crate::hlib::stub_non_char_boundary_panic)]
     fn c12_near_i64(s) {
         let (len, r, buf) = near::<i64, 23, _>(s, b"9223372036854775807", 3);
         cov!(s, r == Some(i64::MAX) && len == 19, "C12.cover.i64_near_max");
@@ -469,9 +452,8 @@ harness! {
 }
 
 harness! {
-    /// kind=bounded tier=thorough bound="u128: sign in {none,'-','+'}, optional extra leading '0' or '1', the first 36 digits of u128::MAX, 3 symbolic digits"
+    /// kind=bounded tier=quick bound="u128: sign in {none,'-','+'}, optional extra leading '0' or '1', the first 36 digits of u128::MAX, 3 symbolic digits"
     #[kani::unwind(45)]
-    #[kani::stub(konst_kernel::string::non_char_boundary_panic, crate::hlib::stub_non_char_boundary_panic)]
     fn c12_near_u128(s) {
         let (len, r, buf) = near::<u128, 43, _>(s, b"340282366920938463463374607431768211455", 3);
         cov!(s, r == Some(u128::MAX) && len == 39, "C12.cover.u128_near_max");
@@ -487,7 +469,6 @@ harness! {
 harness! {
     /// kind=bounded tier=thorough bound="u128: sign in {none,'-','+'} followed by exactly 39 symbolic digits (u128::MAX has 39 digits)"
     #[kani::unwind(43)]
-    #[kani::stub(konst_kernel::string::non_char_boundary_panic, crate::hlib::stub_non_char_boundary_panic)]
     fn c12_wide_u128(s) {
         let (len, r, buf) = wide::<u128, 42, _>(s, 39);
         cov!(s, r == Some(u128::MAX), "C12.cover.u128_max");
@@ -499,7 +480,6 @@ harness! {
 harness! {
     /// kind=bounded tier=thorough bound="u128: sign in {none,'-','+'} followed by exactly 40 symbolic digits (one more than u128::MAX has)"
     #[kani::unwind(44)]
-    #[kani::stub(konst_kernel::string::non_char_boundary_panic, crate::hlib::stub_non_char_boundary_panic)]
     fn c12_wide_u128_extra(s) {
         let (len, r, buf) = wide::<u128, 42, _>(s, 40);
         cov!(s, r == Some(u128::MAX), "C12.cover.u128_max_leading_zero");
@@ -508,9 +488,8 @@ harness! {
 }
 
 harness! {
-    /// kind=bounded tier=thorough bound="i128: sign in {none,'-','+'}, optional extra leading '0' or '1', the first 36 digits of i128::MAX, 3 symbolic digits"
+    /// kind=bounded tier=quick bound="i128: sign in {none,'-','+'}, optional extra leading '0' or '1', the first 36 digits of i128::MAX, 3 symbolic digits"
     #[kani::unwind(45)]
-    #[kani::stub(konst_kernel::string::non_char_boundary_panic, crate::hlib::stub_non_char_boundary_panic)]
     fn c12_near_i128(s) {
         let (len, r, buf) = near::<i128, 43, _>(s, b"170141183460469231731687303715884105727", 3);
         cov!(s, r == Some(i128::MAX) && len == 39, "C12.cover.i128_near_max");
@@ -527,9 +506,8 @@ harness! {
 }
 
 harness! {
-    /// kind=bounded tier=thorough bound="usize: sign in {none,'-','+'}, optional extra leading '0' or '1', the first 17 digits of usize::MAX, 3 symbolic digits"
+    /// kind=bounded tier=quick bound="usize: sign in {none,'-','+'}, optional extra leading '0' or '1', the first 17 digits of usize::MAX, 3 symbolic digits"
     #[kani::unwind(26)]
-    #[kani::stub(konst_kernel::string::non_char_boundary_panic, crate::hlib::stub_non_char_boundary_panic)]
     fn c12_near_usize(s) {
         let (len, r, buf) = near::<usize, 24, _>(s, b"18446744073709551615", 3);
         cov!(s, r == Some(usize::MAX) && len == 20, "C12.cover.usize_near_max");
@@ -543,9 +521,8 @@ harness! {
 }
 
 harness! {
-    /// kind=bounded tier=thorough bound="usize: sign in {none,'-','+'} followed by exactly 20 symbolic digits (usize::MAX has 20 digits)"
+    /// kind=bounded tier=quick bound="usize: sign in {none,'-','+'} followed by exactly 20 symbolic digits (usize::MAX has 20 digits)"
     #[kani::unwind(24)]
-    #[kani::stub(konst_kernel::string::non_char_boundary_panic, crate::hlib::stub_non_char_boundary_panic)]
     fn c12_wide_usize(s) {
         let (len, r, buf) = wide::<usize, 23, _>(s, 20);
         cov!(s, r == Some(usize::MAX), "C12.cover.usize_max");
@@ -555,9 +532,8 @@ harness! {
 }
 
 harness! {
-    /// kind=bounded tier=thorough bound="usize: sign in {none,'-','+'} followed by exactly 21 symbolic digits (one more than usize::MAX has)"
+    /// kind=bounded tier=quick bound="usize: sign in {none,'-','+'} followed by exactly 21 symbolic digits (one more than usize::MAX has)"
     #[kani::unwind(25)]
-    #[kani::stub(konst_kernel::string::non_char_boundary_panic, crate::hlib::stub_non_char_boundary_panic)]
     fn c12_wide_usize_extra(s) {
         let (len, r, buf) = wide::<usize, 23, _>(s, 21);
         cov!(s, r == Some(usize::MAX), "C12.cover.usize_max_leading_zero");
@@ -566,9 +542,8 @@ harness! {
 }
 
 harness! {
-    /// kind=bounded tier=thorough bound="isize: sign in {none,'-','+'}, optional extra leading '0' or '1', the first 16 digits of isize::MAX, 3 symbolic digits"
+    /// kind=bounded tier=quick bound="isize: sign in {none,'-','+'}, optional extra leading '0' or '1', the first 16 digits of isize::MAX, 3 symbolic digits"
     #[kani::unwind(25)]
-    #[kani::stub(konst_kernel::string::non_char_boundary_panic, crate::hlib::stub_non_char_boundary_panic)]
     fn c12_near_isize(s) {
         let (len, r, buf) = near::<isize, 23, _>(s, b"9223372036854775807", 3);
         cov!(s, r == Some(isize::MAX) && len == 19, "C12.cover.isize_near_max");
@@ -585,9 +560,8 @@ harness! {
 }
 
 harness! {
-    /// kind=bounded tier=thorough bound="u32 prefix parsing: sign none or '-', the first 7 digits of u32::MAX, 3 symbolic digits, then one symbolic non-digit ASCII byte"
+    /// kind=bounded tier=quick bound="u32 prefix parsing: sign none or '-', the first 7 digits of u32::MAX, 3 symbolic digits, then one symbolic non-digit ASCII byte"
     #[kani::unwind(16)]
-    #[kani::stub(konst_kernel::string::non_char_boundary_panic, crate::hlib::stub_non_char_boundary_panic)]
     fn c12_prefix_near_u32(s) {
         let (n, e) = near_prefix::<u32, 14, _>(s, b"4294967295", 3);
         cov!(s, n == 10 && e == Some(u32::MAX), "C12.cover.prefix_u32_max_then_byte");
@@ -599,7 +573,6 @@ harness! {
 harness! {
     /// kind=bounded tier=quick bound="i32 prefix parsing: sign none or '-', the first 7 digits of i32::MAX, 3 symbolic digits, then one symbolic non-digit ASCII byte"
     #[kani::unwind(16)]
-    #[kani::stub(konst_kernel::string::non_char_boundary_panic, crate::hlib::stub_non_char_boundary_panic)]
     fn c12_prefix_near_i32(s) {
         let (n, e) = near_prefix::<i32, 14, _>(s, b"2147483647", 3);
         cov!(s, n == 10 && e == Some(i32::MAX), "C12.cover.prefix_i32_max_then_byte");
@@ -610,9 +583,8 @@ harness! {
 }
 
 harness! {
-    /// kind=bounded tier=thorough bound="u64 prefix parsing: sign none or '-', the first 17 digits of u64::MAX, 3 symbolic digits, then one symbolic non-digit ASCII byte"
+    /// kind=bounded tier=quick bound="u64 prefix parsing: sign none or '-', the first 17 digits of u64::MAX, 3 symbolic digits, then one symbolic non-digit ASCII byte"
     #[kani::unwind(26)]
-    #[kani::stub(konst_kernel::string::non_char_boundary_panic, crate::hlib::stub_non_char_boundary_panic)]
     fn c12_prefix_near_u64(s) {
         let (n, e) = near_prefix::<u64, 24, _>(s, b"18446744073709551615", 3);
         cov!(s, n == 20 && e == Some(u64::MAX), "C12.cover.prefix_u64_max_then_byte");
@@ -622,9 +594,8 @@ harness! {
 }
 
 harness! {
-    /// kind=bounded tier=thorough bound="i64 prefix parsing: sign none or '-', the first 16 digits of i64::MAX, 3 symbolic digits, then one symbolic non-digit ASCII byte"
+    /// kind=bounded tier=quick bound="i64 prefix parsing: sign none or '-', the first 16 digits of i64::MAX, 3 symbolic digits, then one symbolic non-digit ASCII byte"
     #[kani::unwind(25)]
-    #[kani::stub(konst_kernel::string::non_char_boundary_panic, crate::hlib::stub_non_char_boundary_panic)]
     fn c12_prefix_near_i64(s) {
         let (n, e) = near_prefix::<i64, 23, _>(s, b"9223372036854775807", 3);
         cov!(s, n == 19 && e == Some(i64::MAX), "C12.cover.prefix_i64_max_then_byte");
@@ -635,9 +606,8 @@ harness! {
 }
 
 harness! {
-    /// kind=bounded tier=thorough bound="u128 prefix parsing: sign none or '-', the first 36 digits of u128::MAX, 3 symbolic digits, then one symbolic non-digit ASCII byte"
+    /// kind=bounded tier=quick bound="u128 prefix parsing: sign none or '-', the first 36 digits of u128::MAX, 3 symbolic digits, then one symbolic non-digit ASCII byte"
     #[kani::unwind(45)]
-    #[kani::stub(konst_kernel::string::non_char_boundary_panic, crate::hlib::stub_non_char_boundary_panic)]
     fn c12_prefix_near_u128(s) {
         let (n, e) = near_prefix::<u128, 43, _>(s, b"340282366920938463463374607431768211455", 3);
         cov!(s, n == 39 && e == Some(u128::MAX), "C12.cover.prefix_u128_max_then_byte");
@@ -647,9 +617,8 @@ harness! {
 }
 
 harness! {
-    /// kind=bounded tier=thorough bound="i128 prefix parsing: sign none or '-', the first 36 digits of i128::MAX, 3 symbolic digits, then one symbolic non-digit ASCII byte"
+    /// kind=bounded tier=quick bound="i128 prefix parsing: sign none or '-', the first 36 digits of i128::MAX, 3 symbolic digits, then one symbolic non-digit ASCII byte"
     #[kani::unwind(45)]
-    #[kani::stub(konst_kernel::string::non_char_boundary_panic, crate::hlib::stub_non_char_boundary_panic)]
     fn c12_prefix_near_i128(s) {
         let (n, e) = near_prefix::<i128, 43, _>(s, b"170141183460469231731687303715884105727", 3);
         cov!(s, n == 39 && e == Some(i128::MAX), "C12.cover.prefix_i128_max_then_byte");
@@ -660,9 +629,8 @@ harness! {
 }
 
 harness! {
-    /// kind=bounded tier=thorough bound="usize prefix parsing: sign none or '-', the first 17 digits of usize::MAX, 3 symbolic digits, then one symbolic non-digit ASCII byte"
+    /// kind=bounded tier=quick bound="usize prefix parsing: sign none or '-', the first 17 digits of usize::MAX, 3 symbolic digits, then one symbolic non-digit ASCII byte"
     #[kani::unwind(26)]
-    #[kani::stub(konst_kernel::string::non_char_boundary_panic, crate::hlib::stub_non_char_boundary_panic)]
     fn c12_prefix_near_usize(s) {
         let (n, e) = near_prefix::<usize, 24, _>(s, b"18446744073709551615", 3);
         cov!(s, n == 20 && e == Some(usize::MAX), "C12.cover.prefix_usize_max_then_byte");
@@ -672,9 +640,8 @@ harness! {
 }
 
 harness! {
-    /// kind=bounded tier=thorough bound="isize prefix parsing: sign none or '-', the first 16 digits of isize::MAX, 3 symbolic digits, then one symbolic non-digit ASCII byte"
+    /// kind=bounded tier=quick bound="isize prefix parsing: sign none or '-', the first 16 digits of isize::MAX, 3 symbolic digits, then one symbolic non-digit ASCII byte"
     #[kani::unwind(25)]
-    #[kani::stub(konst_kernel::string::non_char_boundary_panic, crate::hlib::stub_non_char_boundary_panic)]
     fn c12_prefix_near_isize(s) {
         let (n, e) = near_prefix::<isize, 23, _>(s, b"9223372036854775807", 3);
         cov!(s, n == 19 && e == Some(isize::MAX), "C12.cover.prefix_isize_max_then_byte");
@@ -687,7 +654,6 @@ harness! {
 harness! {
     /// kind=bounded tier=thorough bound="i64: sign in {none,'-','+'}, optional extra leading '0' or '1', the first 11 digits of i64::MAX, 8 symbolic digits (all-symbolic 19-digit strings are out of reach for the signed 64/128-bit types: >40 min)"
     #[kani::unwind(25)]
-    #[kani::stub(konst_kernel::string::non_char_boundary_panic, crate::hlib::stub_non_char_boundary_panic)]
     fn c12_near_i64_deep(s) {
         let (len, r, buf) = near::<i64, 23, _>(s, b"9223372036854775807", 8);
         cov!(s, r == Some(i64::MAX), "C12.cover.i64_deep_max");
@@ -699,7 +665,6 @@ harness! {
 harness! {
     /// kind=bounded tier=thorough bound="i128: sign in {none,'-','+'}, optional extra leading '0' or '1', the first 31 digits of i128::MAX, 8 symbolic digits (all-symbolic 39-digit strings are out of reach for the signed 64/128-bit types: >40 min)"
     #[kani::unwind(45)]
-    #[kani::stub(konst_kernel::string::non_char_boundary_panic, crate::hlib::stub_non_char_boundary_panic)]
     fn c12_near_i128_deep(s) {
         let (len, r, buf) = near::<i128, 43, _>(s, b"170141183460469231731687303715884105727", 8);
         cov!(s, r == Some(i128::MAX), "C12.cover.i128_deep_max");
@@ -711,7 +676,6 @@ harness! {
 harness! {
     /// kind=bounded tier=thorough bound="isize: sign in {none,'-','+'}, optional extra leading '0' or '1', the first 11 digits of isize::MAX, 8 symbolic digits (all-symbolic 19-digit strings are out of reach for the signed 64/128-bit types: >40 min)"
     #[kani::unwind(25)]
-    #[kani::stub(konst_kernel::string::non_char_boundary_panic, crate::hlib::stub_non_char_boundary_panic)]
     fn c12_near_isize_deep(s) {
         let (len, r, buf) = near::<isize, 23, _>(s, b"9223372036854775807", 8);
         cov!(s, r == Some(isize::MAX), "C12.cover.isize_deep_max");
@@ -723,7 +687,6 @@ harness! {
 harness! {
     /// kind=bounded tier=thorough bound="i32: every string [-+]?[0-9]* of <=12 bytes, length symbolic (i32::MIN has sign + 10 digits)"
     #[kani::unwind(16)]
-    #[kani::stub(konst_kernel::string::non_char_boundary_panic, crate::hlib::stub_non_char_boundary_panic)]
     fn c12_anylen_i32(s) {
         let (buf, len) = any_numeric::<12, _>(s, 0, false);
         let h = ascii_str(&buf[..len]);
@@ -742,7 +705,6 @@ harness! {
 harness! {
     /// kind=bounded tier=quick bound="bool: every valid UTF-8 string<=6 bytes (whole string), <=7 bytes (prefix parsing)"
     #[kani::unwind(10)]
-    #[kani::stub(konst_kernel::string::non_char_boundary_panic, crate::hlib::stub_non_char_boundary_panic)]
     fn c12_bool(s) {
         let bs = BStr::<7>::any(s);
         let h = bs.as_str();
@@ -792,7 +754,6 @@ fn check_delegation<T: KInt, S: Src>(s: &mut S, h: &str) {
 harness! {
     /// kind=bounded tier=quick bound="StdParser::<T>::parse_with, T in {u8,i8,u16,i16,bool}: every valid UTF-8 string<=5 bytes"
     #[kani::unwind(9)]
-    #[kani::stub(konst_kernel::string::non_char_boundary_panic, crate::hlib::stub_non_char_boundary_panic)]
     fn c12_has_parser_small(s) {
         let bs = BStr::<5>::any(s);
         let h = bs.as_str();
@@ -818,9 +779,8 @@ harness! {
 }
 
 harness! {
-    /// kind=bounded tier=thorough bound="StdParser::<T>::parse_with, T in {u32,i32,u64,i64}: every valid UTF-8 string<=3 bytes"
+    /// kind=bounded tier=quick bound="StdParser::<T>::parse_with, T in {u32,i32,u64,i64}: every valid UTF-8 string<=3 bytes"
     #[kani::unwind(7)]
-    #[kani::stub(konst_kernel::string::non_char_boundary_panic, crate::hlib::stub_non_char_boundary_panic)]
     fn c12_has_parser_mid(s) {
         let bs = BStr::<3>::any(s);
         let h = bs.as_str();
@@ -836,9 +796,8 @@ harness! {
 }
 
 harness! {
-    /// kind=bounded tier=thorough bound="StdParser::<T>::parse_with, T in {u128,i128,usize,isize}: every valid UTF-8 string<=3 bytes"
+    /// kind=bounded tier=quick bound="StdParser::<T>::parse_with, T in {u128,i128,usize,isize}: every valid UTF-8 string<=3 bytes"
     #[kani::unwind(7)]
-    #[kani::stub(konst_kernel::string::non_char_boundary_panic, crate::hlib::stub_non_char_boundary_panic)]
     fn c12_has_parser_big(s) {
         let bs = BStr::<3>::any(s);
         let h = bs.as_str();
